@@ -38,6 +38,9 @@ pub struct Ledger {
     pub stamps: Mutex<Vec<(u32, u64, u64)>>,
     pub err_callbacks: Mutex<Vec<u32>>,
     pub close_calls: AtomicU32,
+    /// (item, milliseconds between its first poll and its drop) for items dropped before completion -- on the runtime's own clock
+    /// (virtual under the paused runtime, real otherwise): a timeout may cancel an item only after it was in flight that long
+    pub cancelled_after_ms: Mutex<Vec<(u32, u64)>>,
 }
 impl Ledger {
     pub fn new(items: usize) -> Arc<Ledger> { let l = Ledger::default(); *l.state.lock().unwrap() = vec![0; items]; *l.stamps.lock().unwrap() = (0..items as u32).map(|i| (i, 0, 0)).collect(); Arc::new(l) }
@@ -46,14 +49,14 @@ impl Ledger {
 }
 
 /// created at the first poll of an item future; its drop tells whether the item completed or was cancelled
-pub struct Guard { pub ledger: Arc<Ledger>, pub item: u32, pub completed: bool }
+pub struct Guard { pub ledger: Arc<Ledger>, pub item: u32, pub completed: bool, pub t0: tokio::time::Instant }
 impl Guard {
     pub fn start(ledger: &Arc<Ledger>, item: u32) -> Guard {
         let n = ledger.in_flight.fetch_add(1, SeqCst) + 1;
         ledger.max_in_flight.fetch_max(n, SeqCst);
         ledger.state.lock().unwrap()[item as usize] = 1;
         let st = ledger.stamp(); ledger.stamps.lock().unwrap()[item as usize].1 = st;
-        Guard { ledger: ledger.clone(), item, completed: false }
+        Guard { ledger: ledger.clone(), item, completed: false, t0: tokio::time::Instant::now() }
     }
     pub fn complete(mut self) { self.completed = true; }
 }
@@ -61,6 +64,7 @@ impl Drop for Guard {
     fn drop(&mut self) {
         self.ledger.in_flight.fetch_sub(1, SeqCst);
         self.ledger.state.lock().unwrap()[self.item as usize] = if self.completed { 2 } else { 3 };
+        if !self.completed { self.ledger.cancelled_after_ms.lock().unwrap().push((self.item, self.t0.elapsed().as_millis() as u64)) }
         let st = self.ledger.stamp(); self.ledger.stamps.lock().unwrap()[self.item as usize].2 = st;
     }
 }
